@@ -249,6 +249,7 @@ struct BodyV<'a> {
     stmt_stack: Vec<(usize, usize)>,
     calls: Vec<(String, (usize, usize))>,
     breaks: Vec<(usize, usize)>,
+    continues: Vec<(usize, usize)>,
     returns: Vec<(usize, usize)>, // enclosing statement of each `return` expression, in source order
     fresh: Vec<(usize, String)>, // (after byte, var)
     strlits: Vec<String>,
@@ -384,6 +385,12 @@ impl<'a, 'ast> Visit<'ast> for BodyV<'a> {
             self.returns.push(*st);
         }
         syn::visit::visit_expr_return(self, r);
+    }
+    fn visit_expr_continue(&mut self, r: &'ast syn::ExprContinue) {
+        if let Some(st) = self.stmt_stack.last() {
+            self.continues.push(*st);
+        }
+        syn::visit::visit_expr_continue(self, r);
     }
     fn visit_expr_break(&mut self, r: &'ast syn::ExprBreak) {
         if let Some(st) = self.stmt_stack.last() {
@@ -554,9 +561,23 @@ fn gen_fn(ctx: &mut Ctx, fs_: &FnSpec) -> R<()> {
         _ => return fail(format!("{} is not a function", fs_.path)),
     };
     let _ = vis_start;
-    let mut v = BodyV { src: text, edits: vec![], seq: 0, loops: vec![], closures: vec![], stmt_stack: vec![], calls: vec![], breaks: vec![], returns: vec![], fresh: vec![], strlits: vec![], errs: vec![], lets: vec![], upper_idents: vec![] };
+    let mut v = BodyV { src: text, edits: vec![], seq: 0, loops: vec![], closures: vec![], stmt_stack: vec![], calls: vec![], breaks: vec![], continues: vec![], returns: vec![], fresh: vec![], strlits: vec![], errs: vec![], lets: vec![], upper_idents: vec![] };
     attr_edits(attrs, &mut v.edits, &mut v.seq, text);
-    vis_edit(vis, &mut v.edits, &mut v.seq);
+    if fs_.opts.iter().any(|o| o == "private") {
+        // E14: `pub` dropped so that the contract may mention unit-private specification functions
+        if let syn::Visibility::Public(p) = vis {
+            let (a, b) = br(p.span());
+            let mut e = b;
+            while e < text.len() && text.as_bytes()[e] == b' ' {
+                e += 1;
+            }
+            v.seq += 1;
+            let seq = v.seq;
+            v.edits.push(Edit { start: a, end: e, text: String::new(), rule: "E14".into(), seq, marks: vec![] });
+        }
+    } else {
+        vis_edit(vis, &mut v.edits, &mut v.seq);
+    }
     v.visit_block(block);
     if !v.errs.is_empty() {
         return fail(v.errs.join("; "));
@@ -891,6 +912,10 @@ fn gen_fn(ctx: &mut Ctx, fs_: &FnSpec) -> R<()> {
             ["before_return", k] => {
                 let k: usize = k.parse().map_err(|_| Fail("bad return index".into()))?;
                 v.returns.get(k - 1).ok_or(Fail(format!("anchor lost: {} has no return #{k}", fs_.path)))?.0
+            }
+            ["before_continue", k] => {
+                let k: usize = k.parse().map_err(|_| Fail("bad continue index".into()))?;
+                v.continues.get(k - 1).ok_or(Fail(format!("anchor lost: {} has no continue #{k}", fs_.path)))?.0
             }
             ["before_break", k] => {
                 let k: usize = k.parse().map_err(|_| Fail("bad break index".into()))?;
